@@ -52,11 +52,11 @@ func (c *Ctx) regexpVar(sp, name string) *regexp.Regexp {
 // ---------- LEX ----------
 
 type lexReg struct {
-	call   *ast.CallExpr // the rule constructor call: str(..), keyword(..), primOper(..), regex(..), or addOper
-	ctor   string
-	kind   string // constant token kind, if any
-	pat    string // regex pattern
-	seq    *lexSeq // registered once per element of this sequence (nil: a single registration)
+	call *ast.CallExpr // the rule constructor call: str(..), keyword(..), primOper(..), regex(..), or addOper
+	ctor string
+	kind string  // constant token kind, if any
+	pat  string  // regex pattern
+	seq  *lexSeq // registered once per element of this sequence (nil: a single registration)
 }
 
 func ruleLex(c *Ctx) {
